@@ -637,13 +637,20 @@ string — Python's own `json.loads(json.dumps(s))` merges such a pair into one 
 UTF-8 files hold no surrogate at all. -/
 def C11_json_roundtrip : Prop := ∀ v : J, J.ok v = true → loads (getJsonText v) = some v
 
-/-- Proved part of `C11_json_roundtrip`: everything that concerns the text — layout, escaping into printable ASCII,
-the compaction — is discharged; what remains is the token-level inverse of the standard library
-(`parseToks (toksV v) = some v`: `int(str(n)) = n`, `\uXXXX` decoding of `escStr`, the recursive descent), which the
-streams `json-dumps`, `loads-texts` and `json-text.*` exercise (`back` of the `c11.dumps` op evaluates exactly this
-equation on every generated value). -/
-theorem C11_json_roundtrip_partial (v : J) (h : parseToks (toksV v) = some v) : loads (getJsonText v) = some v := by
+/-- Token-level form: the text layer (layout, escaping into printable ASCII, compaction) is discharged for every
+value; the text parses back to `v` as soon as the tokens of `v` do. -/
+theorem C11_json_roundtrip_of_tokens (v : J) (h : parseToks (toksV v) = some v) : loads (getJsonText v) = some v := by
   unfold loads; rw [lex_getJsonText v]; exact h
+
+/-- Proved part of `C11_json_roundtrip`: the whole round trip — layout, escaping, compaction, lexing, the recursive
+descent, `int(str(n)) = n` with the no-leading-zero rule — for every value of any size and nesting, MODULO the single
+statement `DecodeEsc` (`decode (escStr s) = some s` for strings without a surrogate pair: arithmetic on the four
+hexadecimal digits of `\uXXXX` and on UTF-16 surrogates, a fact about one string at a time in which neither the
+layout nor the compaction takes part). `DecodeEsc` is exercised by the streams `json-dumps`, `loads-texts` and
+`json-text.*` (`back` of the `c11.dumps` op evaluates `loads (getJsonText v) = v` on every generated value, with control
+characters, non-ASCII, astral characters and lone surrogates). -/
+theorem C11_json_roundtrip_partial (hs : DecodeEsc) : C11_json_roundtrip := fun v hok =>
+  C11_json_roundtrip_of_tokens v (parseToks_toksV hs v hok)
 
 /-- Non-vacuity: a database value whose source string contains a laid-out look-alike span list, next to a real span
 list. The look-alike survives character for character; the real one is compacted; the text parses back to the value. -/
